@@ -179,13 +179,22 @@ func checkC09(r *Run) {
 						continue
 					}
 					bin, ok := iff.Cond.(*ssa.BinOp)
-					if !ok || (bin.Op != token.GTR && bin.Op != token.GEQ) {
+					if !ok {
 						continue
 					}
-					if g, ok := growthOf(bin.X, waited); !ok || g < 2 {
+					// doubled > Max, or Max < doubled
+					x, y := bin.X, bin.Y
+					switch bin.Op {
+					case token.GTR, token.GEQ:
+					case token.LSS, token.LEQ:
+						x, y = y, x
+					default:
 						continue
 					}
-					if !isMax(bin.Y) {
+					if g, ok := growthOf(x, waited); !ok || g < 2 {
+						continue
+					}
+					if !isMax(y) {
 						continue
 					}
 					if DominatedByEdge(f, last, b, 0, PathQ{}) {
